@@ -131,42 +131,10 @@ func runRace(f []string) string {
 	if _, ok := raceWhats[what]; !ok || err1 != nil || err2 != nil || n < 1 || n > 5000 {
 		return "bad-case"
 	}
-	raceOnce.Do(buildRaceBinary)
-	if raceBin == "" {
-		return "race-build-impossible " + raceErr
+	pairs, marks, bad := raceChild("conc", raceCases(what, newRng(seed), n))
+	if bad != "" {
+		return bad
 	}
-	tmp, err := os.MkdirTemp("", "concrace")
-	if err != nil {
-		return "race-run-impossible"
-	}
-	defer os.RemoveAll(tmp)
-	cases := filepath.Join(tmp, "cases")
-	os.WriteFile(cases, []byte(strings.Join(raceCases(what, newRng(seed), n), "\n")+"\n"), 0o644)
-	obsFile := filepath.Join(tmp, "obs")
-	cmd := exec.Command(raceBin, "run", "conc", "-cases", cases, "-req", filepath.Join(tmp, "req"), "-obs", obsFile)
-	cmd.Env = append(os.Environ(), "GORACE=halt_on_error=0 exitcode=66")
-	var stderr strings.Builder
-	cmd.Stderr = &stderr
-	done := make(chan error, 1)
-	if err := cmd.Start(); err != nil {
-		return "race-run-impossible"
-	}
-	go func() { done <- cmd.Wait() }()
-	select {
-	case <-done:
-	case <-time.After(8 * time.Second):
-		cmd.Process.Kill()
-		return "BLOCKED\t!stress under the race detector did not finish"
-	}
-	obs, _ := os.ReadFile(obsFile)
-	caseLines := strings.Split(string(mustRead(cases)), "\n")
-	var marks []string
-	for i, l := range strings.Split(string(obs), "\n") {
-		if j := strings.Index(l, "\t!"); j >= 0 && i < len(caseLines) {
-			marks = append(marks, strings.Join(strings.Fields(caseLines[i])[:2], " ")+": "+l[j+2:])
-		}
-	}
-	pairs := racePairs(stderr.String())
 	if strings.HasSuffix(what, "-window") {
 		pairs = nil // the flag races themselves are the business of `race future-flags`
 	}
@@ -177,6 +145,45 @@ func runRace(f []string) string {
 		return "violation\t!under -race: " + oneLine(marks[0])
 	}
 	return "ok"
+}
+
+// raceChild runs the cases of an engine in the -race build of this harness: the distinct race reports
+// (pairs of accesses), the violation markers of its observations, or an observation saying why not
+func raceChild(engine string, cases []string) (pairs, marks []string, bad string) {
+	raceOnce.Do(buildRaceBinary)
+	if raceBin == "" {
+		return nil, nil, "race-build-impossible " + raceErr
+	}
+	tmp, err := os.MkdirTemp("", "concrace")
+	if err != nil {
+		return nil, nil, "race-run-impossible"
+	}
+	defer os.RemoveAll(tmp)
+	casesFile := filepath.Join(tmp, "cases")
+	os.WriteFile(casesFile, []byte(strings.Join(cases, "\n")+"\n"), 0o644)
+	obsFile := filepath.Join(tmp, "obs")
+	cmd := exec.Command(raceBin, "run", engine, "-cases", casesFile, "-req", filepath.Join(tmp, "req"), "-obs", obsFile)
+	cmd.Env = append(os.Environ(), "GORACE=halt_on_error=0 exitcode=66")
+	var stderr strings.Builder
+	cmd.Stderr = &stderr
+	done := make(chan error, 1)
+	if err := cmd.Start(); err != nil {
+		return nil, nil, "race-run-impossible"
+	}
+	go func() { done <- cmd.Wait() }()
+	select {
+	case <-done:
+	case <-time.After(8 * time.Second):
+		cmd.Process.Kill()
+		return nil, nil, "BLOCKED\t!stress under the race detector did not finish"
+	}
+	obs, _ := os.ReadFile(obsFile)
+	for i, l := range strings.Split(string(obs), "\n") {
+		if j := strings.Index(l, "\t!"); j >= 0 && i < len(cases) {
+			marks = append(marks, strings.Join(strings.Fields(cases[i])[:2], " ")+": "+l[j+2:])
+		}
+	}
+	return racePairs(stderr.String()), marks, ""
 }
 
 func mustRead(p string) []byte { b, _ := os.ReadFile(p); return b }
